@@ -401,9 +401,17 @@ def run_check(pid, tier, seed, replay=None):
 
     lines = []
     exit_code = 0
+    os.makedirs(os.path.join(VERIF, "replays"), exist_ok=True)
+    listed_replays = {}
+    for (k, w, r) in list(ctx.violations) + (list(ext.violations) if ext is not None else []):
+        if (pid, k) in known and k not in listed_replays:
+            listed_replays[k] = r
     for k, w in listed.items():
         lines.append(f"KNOWN-FINDING: property={pid} key={k} {w}")
-    os.makedirs(os.path.join(VERIF, "replays"), exist_ok=True)
+        # the concrete input of a listed finding is kept as well (not a violation: for the record / for a later repair)
+        write_json(os.path.join(VERIF, "replays", f"{pid}_known_{k.replace(':', '_').replace('/', '_')[:60]}.json"),
+                   {"property": pid, "key": k, "what": w, "replay": listed_replays.get(k), "listed_in": "KNOWN_FINDINGS.txt",
+                    "seed": seed, "tier": tier})
     if unlisted:
         seen = set()
         for i, (k, w, r) in enumerate(unlisted):
